@@ -489,26 +489,34 @@ def ode_runs(res, tier):
             sim.dt = sgn * 0.013
             sim.ri_bs.eps_rel = 1e-10
             sim.ri_bs.eps_abs = 1e-10
-            ode = sim.create_ode(length=3, needs_nbody=False)
+            ode = sim.create_ode(length=6, needs_nbody=False)
+            W = 37.0
 
             def deriv(ode_p, yDot, y, t):
                 yDot[0] = y[1]
                 yDot[1] = -y[0]
                 yDot[2] = math.cos(1.3 * t)           # explicit time dependence: the callback's clock is the ODE's own time
+                yDot[3] = 1.0                         # a clock: the ODE system is advanced exactly as far as the N-body system
+                yDot[4] = W * y[5]                    # a fast oscillator: several Bulirsch-Stoer sub-steps per N-body step
+                yDot[5] = -W * y[4]
             ode.derivatives = deriv
-            ode.y[0], ode.y[1], ode.y[2] = 1.0, 0.0, 0.0
+            ode.y[0], ode.y[1], ode.y[2], ode.y[3], ode.y[4], ode.y[5] = 1.0, 0.0, 0.0, 0.0, 1.0, 0.0
+            if name in ("whfast", "leapfrog"):
+                sim.dt = sgn * 0.21                   # (the N-body accuracy is not the subject here)
             T = sgn * 9.7
             try:
                 sim.integrate(T)
             except Exception as e:  # noqa: BLE001
                 viol(res, "ode-run-failed", integrator=name, error=str(e)[:100])
                 continue
-            err = max(abs(ode.y[0] - math.cos(sim.t)), abs(ode.y[1] + math.sin(sim.t)), abs(ode.y[2] - math.sin(1.3 * sim.t) / 1.3))
+            err = max(abs(ode.y[0] - math.cos(sim.t)), abs(ode.y[1] + math.sin(sim.t)), abs(ode.y[2] - math.sin(1.3 * sim.t) / 1.3),
+                      abs(ode.y[3] - sim.t), abs(ode.y[4] - math.cos(W * sim.t)) / 20.0, abs(ode.y[5] + math.sin(W * sim.t)) / 20.0)
             res["ode_runs"] += 1
             res["observed"]["ode %s dir%+d" % (name, sgn)] = err
             if not err <= 1e-7:
                 viol(res, "ode-coupling", integrator=name, direction=sgn, error=err, t=sim.t,
-                     components=[ode.y[0] - math.cos(sim.t), ode.y[1] + math.sin(sim.t), ode.y[2] - math.sin(1.3 * sim.t) / 1.3])
+                     components=[ode.y[0] - math.cos(sim.t), ode.y[1] + math.sin(sim.t), ode.y[2] - math.sin(1.3 * sim.t) / 1.3, ode.y[3] - sim.t,
+                                 ode.y[4] - math.cos(W * sim.t), ode.y[5] + math.sin(W * sim.t)])
 
 
 def state_of(sim):
